@@ -396,10 +396,14 @@ class Incarnation:
             kw["vectorize"] = False
             if t.nblobs:
                 kw["blobs_dtype"] = "float64"
+        if c.get("ll_args"):
+            kw["log_likelihood"] = t.loglike_vec_args if mode == "vector" else t.loglike_args
+            kw["log_likelihood_args"] = [1.0]
+            kw["log_likelihood_kwargs"] = dict(offset=0.0)
         if mode == "pool":
             pc = c.get("pool", {})
             faults = {"death_at_map": pc["death_at_map"]} if pc.get("death_at_map") is not None and self.no == pc.get("death_inc", 0) else None
-            p = SimPool(pc.get("workers", 3), seed=w.sched.np_seed(f"pool{self.no}.{len(self.pools)}"), faults=faults, stats=w.stats)
+            p = SimPool(pc.get("workers", 3), seed=w.sched.np_seed(f"pool{self.no}.{len(self.pools)}"), faults=faults, stats=w.stats, lazy=bool(pc.get("lazy")))
             self.pools.append(p)
             kw["pool"] = p
         elif mode == "poolint":
